@@ -19,17 +19,18 @@ import shutil
 from . import common, gen
 from .common import hexs
 
-KNOWN_FIELDS = {("MatchHunk", "replace"): "replace", ("Rename", "new_path"): "new_path"}
+KNOWN_FIELDS = {}   # MatchHunk.replace / Rename.new_path were repaired by repo commit 7e5290d
 LOAD_ERRORS = ("missing field", "invalid type", "unknown variant", "unknown field", "invalid length", "duplicate field",
                "Failed to parse plan", "EOF while parsing", "expected value", "expected `", "trailing characters",
                "invalid value", "invalid escape", "control character", "Plan file not found", "Plan with ID")
 
 STRS = ["", "x", "foo_bar", " leading space", "trailing ", "é", "日本語", "Ünï cödé", "quote\"q", "apos'trophe",
         "back\\slash", "ctl\n\t\r", "\x01\x1f\x7f", "😀 emoji", "a/b", "nul\x00byte", "\u2028\u2029", "{\"json\":1}",
-        "\ufeffbom", "--- a/x", "</script>"]
+        "\ufeffbom", "--- a/x", "</script>", "\U0001F600", "a\U0001F600b é", "\U0001D4B3 math",
+        "\U00010348\U0010FFFF", "\uffff\U00010000", "foo_\U0001F680_bar"]
 PATHS = ["", "a.txt", "src/foo_bar.rs", "/abs/path/foo bar.txt", "./rel/../x", "dir with space/ünï.txt",
          "q\"uote's.txt", "back\\slash", "/", "..", "日本/語.md", "tab\there", "new\nline", "C:\\win\\path", "~/home",
-         "/tmp/very/" + "long/" * 20 + "f"]
+         "/tmp/very/" + "long/" * 20 + "f", "docs_\U0001F600/old_name.txt", "/abs/\U0001D4B3/\U0001F680.rs", "\U00010348"]
 NUM_MAX = {"u8": 2 ** 8 - 1, "u16": 2 ** 16 - 1, "u32": 2 ** 32 - 1, "u64": 2 ** 64 - 1, "usize": 2 ** 64 - 1}
 
 
@@ -166,7 +167,8 @@ def run_steps(root, steps):
 
 
 EXTRA_NAMES = ["my file {t}.txt", "q'uo\"te {t}.txt", "ünï_{t}.txt", "日本 {t}.md", "back\\slash_{t}.rs", "tab\t{t}.txt",
-               "dir with space/{t}_inner.txt", "$HOME_{t}.sh", "{t} (copy).txt"]
+               "dir with space/{t}_inner.txt", "$HOME_{t}.sh", "{t} (copy).txt", "emoji_\U0001F600_{t}.txt",
+               "docs_\U0001F680/{t}.md", "\U0001D4B3{t}.rs"]
 
 
 def tree_src(tree):
@@ -182,12 +184,16 @@ def tree_of_src(src):
             for k, n in src.items()}
 
 
+N_CLASSES = 9
+ASTRAL = ["\U0001F600", "\U0001F680", "\U0001D4B3", "\U00010348"]
+
+
 def gen_cli_case(rng, idx):
     swords, rwords = gen.pick_terms(rng)
     sstyle = rng.choice(["snake", "camel", "kebab", "pascal"])
     search = gen.render(sstyle, swords)
     cls = ["ordinary", "unusual_names", "non_ascii_replacement", "empty_replacement_content", "empty_replacement_names",
-           "no_match", "relative_arg", "absolute_arg"][idx % 8]
+           "no_match", "relative_arg", "absolute_arg", "astral"][idx % N_CLASSES]
     repl = gen.render(rng.choice(["snake", "camel", "kebab"]), rwords)
     tree = gen.gen_tree(rng, swords, depth=3, max_entries=8, symlinks=False)
     path_arg = None
@@ -209,6 +215,16 @@ def gen_cli_case(rng, idx):
         tree = {"a.txt": ("f", b"nothing here\n", 0o644), search + ".txt": ("f", b"x\n", 0o644)}
     elif cls == "no_match":
         tree = {"a.txt": ("f", b"nothing here\n", 0o644), "sub": ("d", 0o755), "sub/b.txt": ("f", b"still nothing\n", 0o644)}
+    elif cls == "astral":
+        # characters outside the Basic Multilingual Plane in a directory name, a file name, the text around matches
+        # and (every other case) in the replacement
+        e, e2 = rng.sample(ASTRAL, 2)
+        if rng.random() < 0.5:
+            repl = repl + "_" + e2
+        tree = {"docs_" + e: ("d", 0o755),
+                "docs_" + e + "/" + search + ".txt": ("f", ("let " + search + " = 1; // " + e + "\n" + e2 + search + e + "\n").encode(), 0o644),
+                e2 + "_" + search + ".md": ("f", (search + " " + e + "\n").encode(), 0o644),
+                "src": ("d", 0o755), "src/lib.rs": ("f", ("use crate::" + search + ";\n").encode(), 0o644)}
     elif cls in ("relative_arg", "absolute_arg"):
         tree = {("sub/" + k): v for k, v in tree.items()}
         tree["sub"] = ("d", 0o755)
@@ -239,6 +255,32 @@ def stored_plan_doc(root):
         return json.load(open(files[-1])) if files else None
     except (OSError, ValueError):
         return None
+
+
+def stored_copy_problem(doc, root, before, after):
+    """The plan copy stored for undo/redo, decoded by an independent JSON reader, must describe the tree it was made
+    for: every planned path existed, every hunk's recorded text is what the file had at that position, and every
+    replacement text / new name is present in the tree after the direct apply.  Returns a description or None."""
+    if doc is None:
+        return "no readable plan copy under .renamify/plans"
+    def rel(p):
+        return os.path.relpath(p, root) if os.path.isabs(p) else os.path.normpath(p)
+    after_names = {os.path.basename(k) for k in after}
+    after_text = b"\n".join(v[2] for v in after.values() if v[0] == "f")
+    for r in doc.get("paths", []):
+        if rel(r["path"]) not in before:
+            return f"rename source {r['path']!r} is not a path of the tree"
+        if r.get("new_path") and os.path.basename(r["new_path"]) not in after_names:
+            return f"rename target name {os.path.basename(r['new_path'])!r} does not exist after the apply"
+    for m in doc.get("matches", []):
+        node = before.get(rel(m["file"]))
+        if node is None or node[0] != "f":
+            return f"hunk file {m['file']!r} is not a file of the tree"
+        if node[2][m["start"]:m["end"]] != m["content"].encode():
+            return f"hunk text {m['content']!r} is not what {m['file']!r} has at {m['start']}..{m['end']}"
+        if m.get("replace") and m["replace"].encode() not in after_text:
+            return f"replacement text {m['replace']!r} is nowhere in the tree after the apply"
+    return None
 
 
 def cli_saved_vs_direct(ctx, case):
@@ -291,10 +333,15 @@ def cli_saved_vs_direct(ctx, case):
         # (b) the stored copy: undo / redo on the directly renamed tree
         vb = None
         if rc2 == 0 and size > 0:
+            prob = stored_copy_problem(stored_plan_doc(t2), t2, before, after2)
+            if prob is not None:
+                info["stored_copy_problem"] = prob
             rcu, sou, seu = common.cli(["undo", "latest"], t2)
             info["undo_rc"], info["undo_stderr"] = rcu, seu.decode("utf-8", "replace")[-300:]
             if rcu != 0 and is_load_error(seu):
                 vb = ("undo-load", known_for_cli(stored_plan_doc(t2), seu))
+            elif prob is not None:
+                vb = ("stored-copy", None)
             elif rcu != 0:
                 ctx.count("cli:b:undo_failed_other")     # C01's subject
             else:
@@ -307,8 +354,11 @@ def cli_saved_vs_direct(ctx, case):
                     ctx.count("cli:b:redo_failed_other")
                 else:
                     ctx.count("cli:b:redo_ok")
-                    if common.snapshot(t2) != after2:
-                        ctx.count("cli:b:redo_tree_differs")   # C10's subject (redo), recorded only
+                    redone = common.snapshot(t2)
+                    if redone != after2:
+                        # redo applies the stored plan copy: it must have the effect the direct command had
+                        info["tree_diff"] = common.snap_diff(after2, redone)
+                        vb = ("redo-tree", None)
         return info, verdict, vb
 
 
@@ -326,33 +376,52 @@ def judge(ctx, info, verdict, where):
     ctx.violation("input", {"op": "cli", "where": where, **info},
                   expected="the saved / stored plan loads and has the effect of the direct command",
                   observed={"kind": kind, "apply_saved_rc": info.get("apply_saved_rc"), "direct_rc": info.get("direct_rc"),
-                            "undo_rc": info.get("undo_rc"), "stderr": info.get("apply_saved_stderr") if kind in ("load", "outcome", "tree") else info.get("undo_stderr") or info.get("redo_stderr")},
+                            "undo_rc": info.get("undo_rc"), "stderr": info.get("apply_saved_stderr") if kind in ("load", "outcome", "tree") else info.get("undo_stderr") or info.get("redo_stderr"),
+                            "stored_copy_problem": info.get("stored_copy_problem"), "tree_diff": info.get("tree_diff")},
                   note="plan written to disk cannot be read back, or applying it differs from applying directly")
     return False
 
 
-def cli_replace_empty(ctx, rng, term):
-    """`replace --no-regex " term" ""` on single-line files (so that C03's line-relative offsets do not interfere)"""
+def cli_replace_literal(ctx, rng, term, repl):
+    """`replace --no-regex " term" repl` (empty, or with astral-plane characters), then undo and redo: the stored plan
+    copy must load, and redo (which applies it) must reproduce what the direct command produced"""
     tree = {"a.txt": ("f", ("keep " + term + " tail\n").encode(), 0o644),
             "é dir": ("d", 0o755), "é dir/b c.txt": ("f", ("x " + term + "\n").encode(), 0o644)}
     with common.scratch() as d:
         common.materialize(d, tree)
         before = common.snapshot(d)
-        rc, so, se = common.cli(["replace", "--no-regex", " " + term, "", "-y", "--no-auto-init"], d)
+        rc, so, se = common.cli(["replace", "--no-regex", " " + term, repl, "-y", "--no-auto-init"], d)
         after = common.snapshot(d)
-        info = {"class": "replace_no_regex_empty", "search": " " + term, "replace": "", "tree": common.snap_digest(before),
+        info = {"class": "replace_no_regex", "search": " " + term, "replace": repl, "tree": common.snap_digest(before),
                 "replace_rc": rc, "replace_stderr": se.decode("utf-8", "replace")[-300:]}
-        ctx.case(("cli-replace", term))
-        ctx.count("cli:replace_empty")
+        ctx.case(("cli-replace", term, repl))
+        ctx.count("cli:replace_literal")
         if rc != 0 or after == before:
-            ctx.count("cli:replace_empty:not_applied")
+            ctx.count("cli:replace_literal:not_applied")
             return None
+        prob = stored_copy_problem(stored_plan_doc(d), d, before, after)
+        if prob is not None:
+            info["stored_copy_problem"] = prob
         rcu, sou, seu = common.cli(["undo", "latest"], d)
         info["undo_rc"], info["undo_stderr"] = rcu, seu.decode("utf-8", "replace")[-300:]
         if rcu != 0 and is_load_error(seu):
             return info, ("undo-load", known_for_cli(stored_plan_doc(d), seu))
-        if rcu == 0:
-            ctx.count("cli:replace_empty:undo_ok")
+        if prob is not None:
+            return info, ("stored-copy", None)
+        if rcu != 0:
+            ctx.count("cli:replace_literal:undo_failed_other")
+            return None
+        ctx.count("cli:replace_literal:undo_ok")
+        rcr, sor, ser_ = common.cli(["redo", "latest"], d)
+        info["redo_rc"], info["redo_stderr"] = rcr, ser_.decode("utf-8", "replace")[-300:]
+        if rcr != 0 and is_load_error(ser_):
+            return info, ("redo-load", known_for_cli(stored_plan_doc(d), ser_))
+        if rcr == 0:
+            redone = common.snapshot(d)
+            if redone != after:
+                info["tree_diff"] = common.snap_diff(after, redone)
+                return info, ("redo-tree", None)
+            ctx.count("cli:replace_literal:redo_ok")
         return None
 
 
@@ -414,8 +483,8 @@ def run(ctx):
     ctx.cov["rule"] = ("serde: generated Plan / HistoryEntry values (every Option None/Some, empty and non-empty vectors and "
                        "maps, empty strings, non-ASCII, quotes/backslashes/control characters, absolute and relative paths, "
                        "boundary numbers): 3000 plans + 600 history entries (quick), 12000 + 2400 (thorough); "
-                       "cli: 8 input classes (ordinary, unusual names, non-ASCII replacement, empty replacement with content / "
-                       "name matches, no match, relative / absolute path argument) x 6 (quick) or x 30 (thorough) trees, each "
+                       "cli: 9 input classes (ordinary, unusual names, non-ASCII replacement, empty replacement with content / "
+                       "name matches, no match, relative / absolute path argument, astral-plane characters in names, text and replacement) x 6 (quick) or x 30 (thorough) trees, each "
                        "plan->apply <saved file> vs rename -y, then undo/redo; replace --no-regex with empty replacement. "
                        "non-trivial = plan with at least one hunk or rename; distinct = distinct request line / (class, terms, tree)")
     ctx.assumptions += ["serde_json string escaping / number formatting (documents are compared after decoding)",
@@ -503,7 +572,6 @@ def run(ctx):
         else:
             impl_lines = common.run_impl(reqs)
             model_lines = [None] * len(reqs)
-        harness_known = {}
         for req, impl, model, (which, v) in zip(reqs, impl_lines, model_lines, meta):
             nontrivial = which == "history" or bool(v["matches"] or v["paths"])
             ctx.case(req, nontrivial)
@@ -511,33 +579,31 @@ def run(ctx):
             ctx.count(f"serde:{which}:" + got.split(":")[0])
             if got == "de=ok same=1":
                 continue
-            alt, field = expected_outcomes(v) if which == "plan" else (None, None)
-            if alt is not None and got == alt:
-                harness_known.setdefault(field, req)
-                continue
             ctx.violation("input", {"op": "serde", "request": req, "value": v}, expected="de=ok same=1", observed=got,
                           model_prediction=tail(model) if model else None,
-                          note="a generated value written with to_string_pretty does not load back to the same value")
+                          note="a generated value written by write_plan / History::save does not load back to the same value")
             break      # one in-process counterexample is enough; go on to see whether the CLI reaches it
-        ctx.cov["harness_known"] = {".".join(k): True for k in harness_known}
         ctx.sample({"op": "serde", "request": reqs[0][:300], "impl": impl_lines[0][-60:]})
 
     # 6 CLI oracle ---------------------------------------------------------------------------------------
     per_class = 30 if ctx.thorough else 6
-    for i in range(8 * per_class):
+    for i in range(N_CLASSES * per_class):
         case = gen_cli_case(rng, i)
         r = cli_saved_vs_direct(ctx, case)
         if r is None:
             continue
         info, va, vb = r
-        if i < 8:
+        if i < N_CLASSES:
             ctx.sample({"op": "cli", **{k: info[k] for k in ("class", "search", "replace", "plan_size", "apply_saved_rc", "direct_rc")}}, limit=10)
         for v, where in ((va, "apply saved plan vs direct"), (vb, "stored plan copy (undo/redo)")):
             if v is not None and not judge(ctx, info, v, where):
                 return
-    for term in (["foo_bar", "日本", "fooBar", "x"] if ctx.thorough else ["foo_bar", "日本"]):
-        r = cli_replace_empty(ctx, rng, term)
-        if r is not None and not judge(ctx, r[0], r[1], "replace --no-regex with empty replacement, then undo"):
+    lits = [("foo_bar", ""), ("日本", ""), ("foo_bar", " \U0001F600x"), ("日本", " \U0001D4B3\U0001F680")]
+    if ctx.thorough:
+        lits += [("fooBar", ""), ("x", ""), ("foo_bar", " é\U00010348"), ("\U0001F600", " y")]
+    for term, repl in lits:
+        r = cli_replace_literal(ctx, rng, term, repl)
+        if r is not None and not judge(ctx, r[0], r[1], "replace --no-regex, then undo / redo of the stored plan copy"):
             return
     cli_non_utf8(ctx)
 
